@@ -155,10 +155,67 @@ func judgeIdentity(prop string, e *Entry, p *Plan, out *RunOut) *Violation {
 			return mkViolation(prop, "unexpected-error:"+r.Op.Kind+":"+errClass(r.Err), fmt.Sprintf("%s failed although no fault is armed and every symbol exists: %s", r.Op, r.Err), e, p, out)
 		}
 	}
-	if c, d := CheckIdentity(e.Cfg, Observe(e.Cfg, out.Results)); c != "" {
-		return mkViolation(prop, "identity:"+c, d, e, p, out)
+	groups := [][]*OpResult{out.Results}
+	if p.Multi {
+		groups = make([][]*OpResult, len(p.Tasks))
+		for _, r := range out.Results {
+			groups[r.Task] = append(groups[r.Task], r)
+		}
+	}
+	owner := map[int]int{}
+	for gi, g := range groups {
+		obs := Observe(e.Cfg, g)
+		if c, d := CheckIdentity(e.Cfg, obs); c != "" {
+			return mkViolation(prop, "identity:"+c, d, e, p, out)
+		}
+		for _, o := range obs {
+			if prev, ok := owner[o.ID]; ok && prev != gi {
+				return mkViolation(prop, "identity:instance-shared-between-containers", fmt.Sprintf("instance #%d of service %q was handed out by container %d and by container %d", o.ID, o.Svc, prev+1, gi+1), e, p, out)
+			}
+			owner[o.ID] = gi
+		}
+		// $gontainer must be the container the operation was issued on
+		for _, r := range g {
+			want := 1
+			if p.Multi {
+				want = r.Task + 1
+			}
+			if id, ok := foreignContainer(r.Val, want); ok {
+				return mkViolation(prop, "identity:gontainer-injection-points-at-another-container", fmt.Sprintf("%s on container %d returned an object graph that injects $gontainer = container %d", r.Op, want, id), e, p, out)
+			}
+		}
 	}
 	return nil
+}
+
+// foreignContainer finds a container reference in d that is not container `want`.
+func foreignContainer(d *Desc, want int) (int, bool) {
+	if d == nil {
+		return 0, false
+	}
+	if d.Kind == "container" && d.ID != want {
+		return d.ID, true
+	}
+	for _, c := range d.Deps {
+		if id, ok := foreignContainer(c, want); ok {
+			return id, true
+		}
+	}
+	for _, c := range []*Desc{d.F1, d.F2, d.F3} {
+		if id, ok := foreignContainer(c, want); ok {
+			return id, true
+		}
+	}
+	for _, cs := range [][]DescCall{d.Calls, d.Decos} {
+		for _, c := range cs {
+			for _, a := range c.Args {
+				if id, ok := foreignContainer(a, want); ok {
+					return id, true
+				}
+			}
+		}
+	}
+	return 0, false
 }
 
 var reQuoted = regexp.MustCompile(`"[^"]*"|\d+`)
@@ -178,11 +235,21 @@ func errClass(s string) string {
 // the race detector active under that schedule.
 func CheckC20(e *Entry, src *choice.Src, st *Stats) *Violation {
 	p := genReaderPlan(src, e.Cfg, 2, 8, 24, true)
+	if src.Chance("multi-container", 1, 5) {
+		// several containers of the same generated type, constructed and used concurrently
+		p.Multi = true
+		if len(p.Tasks) > 4 {
+			p.Tasks = p.Tasks[:4]
+		}
+	}
 	out := RunPlan(e, p)
 	if st != nil {
 		st.note(e, p, out)
+		if p.Multi {
+			st.Probes["runs-with-several-containers-constructed-concurrently"]++
+		}
 		if len(st.Samples) < 3 {
-			st.Samples = append(st.Samples, map[string]any{"config": e.Name, "services": svcSummary(e.Cfg), "plan": p.Tasks, "policy": policyNames[p.Sched.Policy%len(policyNames)],
+			st.Samples = append(st.Samples, map[string]any{"config": e.Name, "services": svcSummary(e.Cfg), "plan": p.Tasks, "policy": policyNames[p.Sched.Policy%len(policyNames)], "containers": map[bool]string{true: "one per task", false: "one"}[p.Multi],
 				"steps": out.Sched.Steps, "contended_decisions": out.Sched.Contended, "blocks": out.Sched.Blocks})
 		}
 	}
@@ -206,19 +273,25 @@ func judgeC20(e *Entry, p *Plan, out *RunOut) *Violation {
 		if ev.B != "ok" {
 			continue
 		}
+		key := ev.A
+		if p.Multi {
+			key = fmt.Sprintf("%s\x00container %d", ev.A, ev.Task+1) // one container per task
+		}
 		switch ev.Kind {
 		case "ctor":
-			ctor[ev.A]++
+			ctor[key]++
 		case "fn":
-			fn[ev.A]++
+			fn[key]++
 		}
 	}
-	for name, n := range ctor {
+	for key, n := range ctor {
+		name := strings.SplitN(key, "\x00", 2)[0]
 		if eff[name] == "shared" && n > 1 {
 			return mkViolation("C20", "shared-constructed-more-than-once", fmt.Sprintf("shared service %q was successfully constructed %d times", name, n), e, p, out)
 		}
 	}
-	for name, n := range fn {
+	for key, n := range fn {
+		name := strings.SplitN(key, "\x00", 2)[0]
 		if n > 1 {
 			return mkViolation("C20", "parameter-evaluated-more-than-once", fmt.Sprintf("parameter function %s(%q) was evaluated %d times on one container", "fn", name, n), e, p, out)
 		}
@@ -230,10 +303,14 @@ func judgeC20(e *Entry, p *Plan, out *RunOut) *Violation {
 	seen := map[string]string{}
 	for _, r := range out.Results {
 		if r.Op.Kind == "GetParam" && r.Val != nil {
-			if old, ok := seen[r.Op.Name]; ok && old != r.Val.V {
+			k := r.Op.Name
+			if p.Multi {
+				k = fmt.Sprintf("%s@%d", k, r.Task)
+			}
+			if old, ok := seen[k]; ok && old != r.Val.V {
 				return mkViolation("C20", "parameter-value-changed", fmt.Sprintf("parameter %q was observed as %s and as %s on one container", r.Op.Name, old, r.Val.V), e, p, out)
 			}
-			seen[r.Op.Name] = r.Val.V
+			seen[k] = r.Val.V
 		}
 	}
 	return nil
